@@ -13,6 +13,7 @@ import itertools
 import re
 
 from lib.framework import Check, enc, encb
+from harness import c07_inner
 
 CONSTS = [0xEF, 0xBB, 0xBF, 0xFF, 0xFE, 0x00, 0x40, 0x63, 0x68, 0x61]
 PREFIX = '@charset "'
@@ -90,8 +91,11 @@ class C07(Check):
     trusted_base = (
         'hand-written model lean/CssVerif/Model/Codec.lean of detectencoding_str / detectencoding_unicode / '
         '_fixencoding, tied to cssutils/codec.py by the exhaustive class-level correspondence of this run',
-        'CPython codecs (utf-8/16/32, single-byte) are the inner codecs: their round trip and chunk invariance '
-        'are assumed by the model and exercised (not proved) by the implementation-side oracle',
+        'hand-written model lean/CssVerif/Model/CodecInner.lean of CPython 3.12 codecs under errors="strict" (utf-8, '
+        'utf-8-sig, utf-16/32 with BOM sniffing, -le/-be, latin-1, ascii; stateless and incremental objects), tied to '
+        'the running interpreter by the differential of tools/harness/c07_inner.py over every chunking of short inputs',
+        'other inner codecs (cp1252, koi8-r, ...) and CPython\'s alias table stay a parameter of the model (structure '
+        'Inner); they are exercised on the implementation side only',
     )
     assumptions = ('the detector distinguishes bytes only through equality with ten constants (checked: random '
                    'members of the "other" class give the same answers as the representative)',)
@@ -99,7 +103,11 @@ class C07(Check):
             'longer inputs; texts: generated CSS-like texts with/without @charset header x 13 encodings; chunking: '
             'all single and double cut positions for short inputs, random partitions for long ones. '
             'non-trivial = distinct (input, flag) whose answer is not the default utf-8/implicit, or a chunking '
-            'whose cut falls inside the BOM/@charset header or a multi-byte character')
+            'whose cut falls inside the BOM/@charset header or a multi-byte character. inner codecs: all byte strings of '
+            'length <=2 over 33 boundary bytes; boundary code points encoded in 10 codecs, with/without BOM, damaged 0-2 '
+            'times; EVERY composition into chunks for data <=6 (9) bytes, single/double/random cuts above; CSS codec over '
+            'the concrete codecs: CSS-like non-ASCII texts x 10 codecs x encoding none/right/other x force, random cuts and '
+            'one byte at a time')
 
     # ------------------------------------------------------------------------------------------
     def run(self, ctx):
@@ -109,6 +117,10 @@ class C07(Check):
         ctx.phase(self.corr_text, ctx, c, rng)
         ctx.phase(self.corr_incdec, ctx, c, rng)
         ctx.phase(self.corr_incenc, ctx, c, rng)
+        ctx.phase(c07_inner.corr_inner, self, ctx, c, rng)
+        ctx.phase(c07_inner.corr_css_concrete, self, ctx, c, rng)
+        ctx.phase(c07_inner.corr_css_stream, self, ctx, c, rng)
+        ctx.phase(c07_inner.corr_css_reset, self, ctx, c, rng)
         ctx.phase(self.oracle_spec, ctx, c, rng)
         ctx.phase(self.oracle_roundtrip_chunking, ctx, c, rng)
 
@@ -362,7 +374,10 @@ class C07(Check):
             ctx.violate('encode then decode (encoding given) returns the text with the @charset name rewritten',
                         dict(w, call='decode(encode(text, enc), enc)'), {'got': back, 'want': want})
         has_rule = want != text or (text.startswith(PREFIX) and '"' in text[len(PREFIX):])
-        auto = e in BOM_ENCS or (has_rule and e in ('utf-8', 'latin-1', 'cp1252', 'ascii', 'iso-8859-15', 'koi8-r'))
+        auto = e in BOM_ENCS or (has_rule and e in ('utf-8', 'latin-1', 'cp1252', 'ascii', 'iso-8859-15', 'koi8-r')) \
+            or (e in ('utf-16-le', 'utf-16-be', 'utf-32-le', 'utf-32-be') and want.startswith('@c'))
+        if auto and e == 'utf-16' and want.startswith('\x00'):
+            auto = False        # FF FE 00 00 is the UTF-32 BOM (CSS 2.1 4.4; theorem utf16_nul_is_utf32)
         if auto:
             detected = spec_detect(data)[0]
             try:
@@ -381,7 +396,10 @@ class C07(Check):
         for cuts in self.partitions(rng, len(data), ctx):
             parts = [data[a:b] for a, b in zip((0,) + cuts, cuts + (len(data),))]
             dec_ = codecs.getincrementaldecoder('css')(encoding=e)
-            got = ''.join(dec_.decode(p, False) for p in parts) + dec_.decode(b'', True)
+            try:
+                got = ''.join(dec_.decode(p, False) for p in parts) + dec_.decode(b'', True)
+            except UnicodeError as ex:
+                got = 'raises %r' % ex
             ctx.case(key=('chd', text, e, cuts), nontrivial=any(x < 24 for x in cuts), kind='chunk-dec')
             if got != back:
                 ctx.violate('incremental decoder = one-shot for every chunking',
@@ -389,7 +407,10 @@ class C07(Check):
                 break
             if auto:
                 dec_ = codecs.getincrementaldecoder('css')()
-                got = ''.join(dec_.decode(p, False) for p in parts) + dec_.decode(b'', True)
+                try:
+                    got = ''.join(dec_.decode(p, False) for p in parts) + dec_.decode(b'', True)
+                except UnicodeError as ex:
+                    got = 'raises %r' % ex
                 one = codecs.getdecoder('css')(data)[0]
                 if got != one:
                     ctx.violate('incremental decoder with auto-detection = one-shot for every chunking',
@@ -397,7 +418,10 @@ class C07(Check):
                     break
             # stream reader fed through a chunked stream
             rd = codecs.getreader('css')(ChunkedStream(parts), encoding=e)
-            got = rd.read()
+            try:
+                got = rd.read()
+            except UnicodeError as ex:
+                got = 'raises %r' % ex
             if got != back and not open_header(text):
                 ctx.violate('stream reader = one-shot for every chunking',
                             dict(w, cuts=list(cuts), call='StreamReader'), {'got': got, 'want': back})
@@ -436,6 +460,29 @@ class C07(Check):
         return out
 
     # ------------------------------------------------------------------------------------------
+    def known(self, ctx, finding):
+        c = impl()
+        w = finding['witness']['data']
+        if finding['id'] == c07_inner.FINDING:
+            parts = [bytes.fromhex(x) for x in w['chunks']]
+            one = codecs.getdecoder('css')(b''.join(parts), encoding=w['encoding'])[0]
+            d = c.IncrementalDecoder(encoding=w['encoding'])
+            try:
+                got = ''.join(d.decode(p, False) for p in parts) + d.decode(b'', True)
+            except UnicodeError:
+                got = None
+            return got != one
+        if finding['id'] == c07_inner.RESET_FINDING:
+            d = c.IncrementalDecoder()
+            d.decode(bytes.fromhex(w['docs'][0][0]), True)
+            d.reset()
+            try:
+                got = d.decode(bytes.fromhex(w['docs'][1][0]), True)
+            except UnicodeError:
+                got = None
+            return got != c.IncrementalDecoder().decode(bytes.fromhex(w['docs'][1][0]), True)
+        return True
+
     def replay(self, ctx, data):
         c = impl()
         w = data.get('witness') or {}
@@ -448,10 +495,74 @@ class C07(Check):
             early = c.detectencoding_str(p, False)
             if early[0] is not None and early != c.detectencoding_str(full, True):
                 ctx.violate(data.get('clause'), w, {'early': early})
+        elif w.get('call') in ('IncrementalDecoder', 'IncrementalEncoder', 'StreamReader', 'StreamWriter') \
+                and 'chunks' in w and 'cuts' not in w:
+            self.replay_chunks(ctx, c, data, w)
         elif data.get('kind') == 'impl-violates' and 'text' in w:
             self.one_roundtrip(ctx, c, ctx.sub_rng('replay'), w['text'], w['encoding'])
         else:
             self.run(ctx)
+
+
+def _replay_chunks(self, ctx, c, data, w):
+    if w['call'] == 'IncrementalDecoder':
+        parts = [bytes.fromhex(x) for x in w['chunks']]
+        kw = {'encoding': w.get('encoding'), 'force': w.get('force', True)}
+        try:
+            one = codecs.getdecoder('css')(b''.join(parts), **kw)[0]
+        except UnicodeError:
+            one = None
+        d = c.IncrementalDecoder(**kw)
+        try:
+            got = ''.join(d.decode(p, False) for p in parts) + d.decode(b'', True)
+        except UnicodeError:
+            got = None
+    elif w['call'] == 'StreamReader':
+        parts = [bytes.fromhex(x) for x in w['chunks']]
+        kw = {'encoding': w.get('encoding'), 'force': w.get('force', True)}
+        try:
+            one = codecs.getdecoder('css')(b''.join(parts), **kw)[0]
+        except UnicodeError:
+            one = None
+        rd = codecs.getreader('css')(ChunkedStream(parts), **kw)
+        try:
+            got = rd.read()
+        except UnicodeError:
+            got = None
+        if got is not None and one is not None and one.startswith(got) and (rd.streamreader is None or rd.bytebuffer):
+            got = one        # legitimately still buffered (no end-of-data signal in the stream API)
+    elif w['call'] == 'StreamWriter':
+        parts = w['chunks']
+        try:
+            one = codecs.getencoder('css')(''.join(parts), encoding=w.get('encoding'))[0]
+        except UnicodeError:
+            one = None
+        bio = io.BytesIO()
+        try:
+            wr = codecs.getwriter('css')(bio, encoding=w.get('encoding'))
+            for p in parts:
+                wr.write(p)
+            got = bio.getvalue()
+            if one is not None and one.startswith(got) and (wr.streamwriter is None or not ''.join(parts)):
+                got = one
+        except UnicodeError:
+            got = None
+    else:
+        parts = w['chunks']
+        try:
+            one = codecs.getencoder('css')(''.join(parts), encoding=w.get('encoding'))[0]
+        except UnicodeError:
+            one = None
+        e = c.IncrementalEncoder(encoding=w.get('encoding'))
+        try:
+            got = b''.join(x for x in [e.encode(p, False) for p in parts] + [e.encode('', True)] if x)
+        except UnicodeError:
+            got = None
+    if got != one:
+        ctx.violate(data.get('clause'), w, {'incremental': repr(got), 'one_shot': repr(one)})
+
+
+C07.replay_chunks = _replay_chunks
 
 
 def open_header(text):
